@@ -42,6 +42,9 @@ def products_of_partial_sums():
     if _POPS is None:
         _POPS = [p for p in space.enumerate_programs(4, 3, min_leaves=4, repeats=False, ops="+-*")
                  if product_of_partial_sums(p)]
+        # ... and the 5-leaf ones with a scalar target (nested signs such as (b() - (c() - d(i))) * (e() + f(i)))
+        _POPS += [p for p in space.enumerate_programs(5, 2, min_leaves=5, repeats=False, ops="+-*", target_orders=(0,))
+                  if product_of_partial_sums(p)]
     return _POPS
 
 
@@ -129,7 +132,7 @@ def describe(tier, flavour):
     return {
         "light": "an order-3 copy and a cyclic transpose; matrix product, chained contraction and sum of two contractions in all formats; L<=2,S<=3; L=2,S=4 (+,*; no repeats); L=3,S<=2 (+,*); literal 2 with L=2,S<=2; int32-overflowing literals",
         "full": "matrix product, chained contraction and sum of two contractions in all formats; L<=2,S<=4 all shapes incl. repeated tensors; L=3,S<=3; literals {0,2,2.5} with L<=2,S<=3 and {2} with "
-                "L=3,S<=2; all order-3 copies/transposes (L=1,S=6); the 128 4-leaf products of partial sums "
+                "L=3,S<=2; all order-3 copies/transposes (L=1,S=6); the 128 four-leaf and 448 five-leaf products of partial sums "
                 "(b() + c(i)) * (d() + e(i)); the L<=2,S<=3 space again under a reversed naming (z = y.., i<->k); "
                 "int32-overflowing literals",
         "wide": "L<=2,S<=5; L=3,S<=4; L=2,S=6 (+,*); L=4,S<=3 (+,*); literals {0,1,2,2.5,0.0} L<=2,S<=4; {2,2.5} "
